@@ -6,6 +6,8 @@ pub fn nthreads() -> usize {
     std::env::var("VERIF_THREADS").ok().and_then(|s| s.parse().ok()).unwrap_or_else(|| std::thread::available_parallelism().map(|n| n.get()).unwrap_or(4))
 }
 
+/// added to the index of the core a harness thread is pinned to (set by the forked children of the single-worker sweeps)
+pub static PIN_OFFSET: std::sync::atomic::AtomicUsize = std::sync::atomic::AtomicUsize::new(0);
 pub struct ParResult<T> { pub locals: Vec<T>, pub done: u64, pub total: u64, pub capped: bool }
 
 /// Calls f(i, &mut local) for every i in 0..total (blocks of `chunk`, visited in an order rotated by `seed`).
@@ -27,7 +29,7 @@ pub fn par_run_n<T: Send + Default, F: Fn(u64, &mut T) + Sync>(total: u64, chunk
             let (next, done, capped, f) = (&next, &done, &capped, &f);
             s.spawn(move || {
                 // one core per worker: whatever the worker spawns (solver threads, example binaries) stays on that core
-                pin_current_thread(ti % ncores);
+                pin_current_thread((ti + PIN_OFFSET.load(SeqCst)) % ncores);
                 let mut local = T::default();
                 loop {
                     if let Some(d) = deadline { if Instant::now() > d { if next.load(SeqCst) < nblocks { capped.store(true, SeqCst); } break; } }
